@@ -87,6 +87,22 @@ def pres_diff(want, got, absent_may_become, ws=False):
     return out
 
 
+def covered_by(ex, diffs):
+    """the first finding that explains the first difference when EVERY difference is explained, else None"""
+    first = None
+    for d in diffs:
+        name, field = diff_key(d)
+        hit = None
+        for cid, names, keys in ex:
+            if field in keys or (name != "" and (names is None or (name in names and (names[name] is None or field in names[name])))):
+                hit = cid
+                break
+        if hit is None:
+            return None
+        first = first or hit
+    return first
+
+
 def diff_key(d):
     """(entry name, field) a difference reported by pres_diff is about; structural ones have the name ''"""
     if d.startswith("summary "):
@@ -97,11 +113,43 @@ def diff_key(d):
         return "", "invented"
     if d.startswith("return entry lost"):
         return "", "lost"
+    if d.startswith("return entry "):  # irutil.diff_ir: "return entry X -> Y"
+        return "", "lost" if d.endswith("-> None") else "invented"
     name, _, rest = d.partition(": ")
     for f in ("typ", "prose", "default", "absent default"):
         if rest.startswith(f):
             return name, f.split()[0]
     return name, "?"
+
+
+def entry_ops(ir, back_j, model_kinds, chain, arg):
+    """
+    Per-entry correspondence: the model is asked what the chain does to a description holding ONE entry of the
+    input; where it answers (the entry alone is inside every kind's regular domain) the entry that came back from
+    the real conversion of the WHOLE description must be that. Skipped where the real code lets entries influence
+    each other: numpydoc/google invent a default for an entry that follows a defaulted one (finding D7), and any
+    change of names/order is left to the whole-description predicate.
+    """
+    res = []
+    names = [n for n, _ in ir["params"]]
+    if names != [n for n, _ in back_j["params"]]:
+        return res
+    d7 = any(k in ("numpydoc", "google") for k in chain)
+    seen_default = False
+    ents = [(n, p, bp, False) for (n, p), (_, bp) in zip(ir["params"], back_j["params"])]
+    if ir.get("returns") is not None:
+        ents.append(("return_type", ir["returns"], back_j.get("returns"), True))
+    for n, p, bp, is_ret in ents:
+        safe = "default" in p or not (d7 and seen_default)
+        if "default" in p or len(chain) > 1:
+            seen_default = True  # (on a chain an earlier kind may have given the earlier entries a default)
+        if not safe:
+            continue
+        one = {"doc": "", "params": [] if is_ret else [[n, p]], "returns": p if is_ret else None}
+        got = {"doc": "", "params": [] if is_ret else [[n, bp]], "returns": bp if is_ret else None}
+        op = {"op": "norm_chain", "kinds": model_kinds, "ir": copy.deepcopy(one), "_arg": arg, "_entry": n}
+        res.append(("entry_" + "_".join(chain) if len(chain) == 1 else "entry_chain", op, {"ok": canon_for_model(got, arg)}))
+    return res
 
 
 def _dotted_first(code):
@@ -149,6 +197,12 @@ def code_breaks_stability(kind, is_return, typ, code, edd):
 
 def _entries(ir):
     return [(n, p, False) for n, p in ir["params"]] + ([("return_type", ir["returns"], True)] if ir["returns"] else [])
+
+
+def optional_prose(p):
+    """`_set_name_and_type`: prose starting with "(Optional)" / "Optional" makes the parsers wrap the type"""
+    d, t = p.get("doc") or "", p.get("typ")
+    return t is not None and (d.startswith("(Optional)") or d.startswith("Optional")) and not t.startswith("Optional[")
 
 
 def untyped_breaks(kind, ir):
@@ -272,16 +326,23 @@ class AstKindProp(Prop):
 
     def corr(self, c, run):
         op = {"op": "norm", "kind": self.model_kind, "inline": bool(c["opts"].get("inline_types")), "ir": unify_none(c["ir"])}
+        back_j = None
         try:
             _, _, back = self.conv(c)
-            impl = {"ok": canon_for_model(irutil.ir_to_json(back), self.model_kind == "argparse")}
+            back_j = irutil.ir_to_json(back)
+            impl = {"ok": canon_for_model(back_j, self.model_kind == "argparse")}
         except Exception as e:
             impl = {"raises": exc_kind(e)}
-        return [("norm_" + self.model_kind, op, impl)]
+        res = [("norm_" + self.model_kind, op, impl)]
+        if back_j is not None:
+            mk = [{"kind": self.model_kind, "inline": bool(c["opts"].get("inline_types"))}]
+            res += entry_ops(c["ir"], back_j, mk, [self.kind_of(c)], self.model_kind == "argparse")
+        return res
 
     def canon_model(self, layer, op, ans):
         if "ok" in ans:
-            return {"ok": canon_for_model(ans["ok"], self.model_kind == "argparse")}
+            j = dict(ans["ok"], doc="") if layer.startswith("entry_") else ans["ok"]
+            return {"ok": canon_for_model(j, op.get("_arg", self.model_kind == "argparse"))}
         return ans
 
     def absent_may_become(self, typ):
@@ -347,6 +408,8 @@ class AstKindProp(Prop):
                 out.append(("AST-empty-or-dotted-string-default", {n: F["AST-empty-or-dotted-string-default"]}, set()))
             if d is not None and "efaults" in (p.get("doc") or "") and not G.has_own_default_sentence(p):
                 out.append(("C17-D9-prose-mentions-defaults", {n: F["C17-D9-prose-mentions-defaults"]}, set()))
+            if optional_prose(p) and not all(k == "argparse" for k in kinds_here):
+                out.append(("AST-prose-starting-with-optional-wraps-the-type", {n: {"typ"}}, set()))
         out += self.explain_kind(c)
         if c.get("opts", {}).get("word_wrap") and self.kind_of(c) in ("function", "method") and not c["opts"].get("inline_types") and _long_type(ir):
             out.append(("C18-D20-wrapped-type-line-keeps-the-line-break",
@@ -368,18 +431,7 @@ class AstKindProp(Prop):
         diffs = fl.get("diffs")
         if diffs is None:
             return ex[0][0]
-        first = None
-        for d in diffs:
-            name, field = diff_key(d)
-            hit = None
-            for cid, names, keys in ex:
-                if field in keys or (name != "" and (names is None or (name in names and (names[name] is None or field in names[name])))):
-                    hit = cid
-                    break
-            if hit is None:
-                return None
-            first = first or hit
-        return first
+        return covered_by(ex, diffs)
 
     def classify_kind(self, c, fl):
         return None
@@ -388,7 +440,7 @@ class AstKindProp(Prop):
         return c.get("kind") or self.kind
 
     def code_breaks(self, c, is_return, typ, code):
-        return code_breaks_roundtrip(self.kind, is_return, typ, code, c["opts"].get("emit_default_doc", True))
+        return code_breaks_roundtrip(self.kind_of(c), is_return, typ, code, c["opts"].get("emit_default_doc", True))
 
 
 def _long_type(ir, width=100):
